@@ -95,6 +95,10 @@ pub struct Case {
     pub threads: Vec<Vec<Op>>,
     pub schedule: Vec<u8>,
     pub tail: Vec<Op>,
+    /// a client that gets an error from `delete` (other than NotFound) tries
+    /// again at once, up to this many times
+    #[serde(default)]
+    pub retry_refused: u8,
 }
 
 pub struct C19;
@@ -161,6 +165,7 @@ struct Env {
     tid: Option<usize>,
     /// slots no thread ever deletes (their reads are judged during the scheduled phase)
     never_deleted: BTreeSet<u8>,
+    retry_refused: u8,
 }
 
 struct OpenW {
@@ -612,7 +617,14 @@ impl Env {
                     ctx.probe("delete_of_artifact_sharing_a_chunk_with_a_live_artifact");
                 }
                 let tok = self.begin(Kind::Delete, *s, keys);
-                let r = now_or_never(self.blob.delete(&sl.id));
+                let mut r = now_or_never(self.blob.delete(&sl.id));
+                for _ in 0..self.retry_refused {
+                    if matches!(r, Ok(()) | Err(BlobError::NotFound(_))) {
+                        break;
+                    }
+                    ctx.probe("refused_delete_retried");
+                    r = now_or_never(self.blob.delete(&sl.id));
+                }
                 self.end(tok);
                 self.ev(&format!("delete slot{s} -> {}", match &r { Ok(()) => "ok", Err(e) => err_kind(e) }));
                 ctx.fp(if r.is_ok() { "delete:ok" } else { "delete:err" });
@@ -784,10 +796,26 @@ impl Env {
                 ids.insert(sl.id.clone());
             }
         }
+        let mut refused: Vec<String> = Vec::new();
         for id in &ids {
-            let _ = now_or_never(self.blob.delete(id));
+            if let Err(e) = now_or_never(self.blob.delete(id)) {
+                if !matches!(e, BlobError::NotFound(_)) {
+                    refused.push(err_kind(&e).to_string());
+                }
+            }
         }
         let left = self.blob.store().scan("_blob:meta:").len();
+        if left > 0 && !refused.is_empty() {
+            // a refused delete is an un-acknowledged operation: "after all artifacts are
+            // deleted" does not hold, the clause is not evaluated for this run
+            self.ctx.probe("wipe_skipped_delete_refused");
+            let o = format!("observation (wipe clause not evaluated): delete of a listed artifact was refused ({})", refused[0]);
+            let mut h = lock(&self.h);
+            if !h.observations.contains(&o) {
+                h.observations.push(o);
+            }
+            return;
+        }
         if left > 0 {
             lock(&self.h).harness_error = Some(format!("wipe: {left} artifact(s) still listed after deleting every listed artifact"));
             return;
@@ -1021,9 +1049,26 @@ impl Scenario for C19 {
             let mut setup = Vec::new();
             for _ in 0..n {
                 let op = g.seq_op(split, faults, &mut open);
+                let tampered = if let Op::Tamper { s, .. } = &op { Some(*s) } else { None };
                 setup.push(op);
+                // a fault is followed up, half of the time, by what an operator does
+                // about a damaged artifact: check it, get rid of it (possibly twice),
+                // let the collector run
+                if let Some(s) = tampered {
+                    if g.rng.chance(1, 2) {
+                        if g.rng.chance(1, 2) {
+                            setup.push(Op::Verify { s });
+                        }
+                        for _ in 0..g.rng.range(1, 2) {
+                            setup.push(Op::Delete { s });
+                        }
+                        setup.push(g.advance());
+                        setup.push(Op::Gc);
+                    }
+                }
             }
-            return Case { chunk, min_age_s, gc_batch, setup, threads: vec![], schedule: vec![], tail: vec![] };
+            let retry_refused = *g.rng.pick(&[0u8, 0, 1, 3]);
+            return Case { chunk, min_age_s, gc_batch, setup, threads: vec![], schedule: vec![], tail: vec![], retry_refused };
         }
         // scheduled threads
         let mut setup = Vec::new();
@@ -1104,7 +1149,8 @@ impl Scenario for C19 {
         }
         tail.push(Op::Advance { ms: (min_age_s * 1000 + 1500) as u32 });
         tail.push(Op::Gc);
-        Case { chunk, min_age_s, gc_batch, setup, threads, schedule, tail }
+        let retry_refused = *g.rng.pick(&[0u8, 0, 1, 3]);
+        Case { chunk, min_age_s, gc_batch, setup, threads, schedule, tail, retry_refused }
     }
 
     fn run(&self, case: &Case, ctx: &Arc<RunCtx>) -> RunOut {
@@ -1132,7 +1178,7 @@ impl Scenario for C19 {
                 }
             }
         }
-        let mk_env = |par: bool, tag: String, tid: Option<usize>| Env { blob: blob.clone(), h: h.clone(), ctx: ctx.clone(), chunk, par, tag, tid, never_deleted: never_deleted.clone() };
+        let mk_env = |par: bool, tag: String, tid: Option<usize>| Env { blob: blob.clone(), h: h.clone(), ctx: ctx.clone(), chunk, par, tag, tid, never_deleted: never_deleted.clone(), retry_refused: case.retry_refused };
         let env = mk_env(false, String::new(), None);
         let mut loc = Local::default();
         ctx.fp(&format!("chunk{}:t{}", chunk, case.threads.len()));
